@@ -2,14 +2,14 @@ SPEC = {
     'id': 'C11',
     'properties_file': 'theories/Properties/C11.v',
     'properties_module': 'Properties.C11',
-    'gen_files': [],
+    'gen_files': ['theories/GenFacts/KeystoreFacts.v'],
     'streams': [{
         'name': 'keys', 'pkg': './pkg/secretstore', 'test': 'TestVerifC11',
         'files': [('pkg/secretstore', 'harness/secretstore/zz_verif_common_test.go'),
                   ('pkg/secretstore', 'harness/secretstore/zz_verif_c11_test.go')],
         'model_module': 'Model.C11_Keys', 'shard': 100, 'timeout': 900,
     }],
-    'rule': 'random histories over 2-3 fresh real SecretStores: account / proof key, contact group with another store\'s account '
+    'rule': 'concurrent first use (8 goroutines on a fresh store, oracle only: everyone is handed the keys the store keeps); random histories over 2-3 fresh real SecretStores: account / proof key, contact group with another store\'s account '
             '(both directions), member/device pairs in account, contact and multi-member groups, export, import of another store\'s '
             'export (plain, swapped, same key twice) at any point, malformed / empty / RSA / secp256k1 blobs; results are compared '
             'with the model up to renaming of keys (numbered by first appearance); non-trivial = history with a contact group, '
@@ -17,6 +17,7 @@ SPEC = {
     'trusted_base': [
         'Coq 8.16.1 kernel; vm_compute for evaluating the model on cases',
         'no axioms',
+        'translator gen/keystore.go (lock operations and keystore reads/writes of every method of deviceKeystore, in source order)',
         'harness/secretstore/zz_verif_c11_test.go (canonical numbering of key material)',
         'modelled, not verified: X25519 agreement over converted Ed25519 keys (symbolic: unordered pair), HKDF (injective), '
         'the random source (fresh identifiers), go-ipfs-keystore',
